@@ -88,6 +88,17 @@ Theorem C16_monitor_sound : forall h c b, push_spec h c b -> push_spec_b h c b =
 Proof. exact push_spec_b_sound. Qed.
 Print Assumptions C16_monitor_sound.
 
+(* ... and nothing else: a broadcast observation the monitor accepts satisfies the spec, so a green
+   monitor on an implementation trace means the observed pushes ARE the members of the history *)
+Theorem C16_monitor_exact : forall h c b, push_spec_b h c b = true <-> push_spec h c b.
+Proof. exact push_spec_b_exact. Qed.
+Print Assumptions C16_monitor_exact.
+
+(* a front is listed by a broadcast only if an add for that channel named it *)
+Theorem C16_listed_was_added : forall h c f g, members h c f = Some (Some g) -> In f (fronts_of h c).
+Proof. exact members_listed. Qed.
+Print Assumptions C16_listed_was_added.
+
 (* non-vacuity: a history with duplicates, a middle removal and a deleted channel *)
 Example C16_example :
   run [OAdd 1 7 10; OAdd 1 7 11; OAdd 1 7 10; OAdd 1 8 5; OLeave 1 7 11; OPush 1;
